@@ -1579,6 +1579,8 @@ impl<T: PPGEvaluatorStrategy> PPGEvaluator<T> {
                                 );
                             }
                         }
+                        // an aborted job is no longer on offer
+                        self.jobs_ready_to_run.remove(&j.job_id);
                     }
                 }
             }
